@@ -98,6 +98,19 @@ def key_test(t: T) -> Optional[Tuple[str, bool]]:
     if t.op == "unary" and t.name == "Not":
         r = key_test(t.args[0])
         return None if r is None else (r[0], not r[1])
+    if t.op == "mcall" and t.name == "isin" and len(t.args) in (2, 3):
+        # vectorised membership of the KEY column:  recs["state"].isin(synapse_state_names)  /  np.isin(states, names)
+        coll = t.args[-1]
+        while coll.op in ("call", "mcall") and coll.name in ("list", "asarray", "array", "tuple", "set") and coll.args:
+            coll = coll.args[-1]
+        nm = coll.name if coll.op in ("attr", "param", "free", "name") and isinstance(coll.name, str) else None
+        if coll.op == "item" and any(x.op == "mcall" and x.name == "_get_state_names" for x in coll.walk()):
+            return ("node" if coll.name == 0 else "edge"), True
+        if nm in EDGE_KEY_SETS:
+            return "edge", True
+        if nm in NODE_KEY_SETS:
+            return "node", True
+        return None
     if t.op == "cmp" and t.name in ("in", "not in"):
         coll = t.args[1]
         cls = None
